@@ -1113,8 +1113,10 @@ func (e *Engine) load(s *fstate, u *ssa.UnOp, b *ssa.BasicBlock) AV {
 						found = true
 						r = Join(r, e.at(s, st.Val, st.Block(), 2))
 					}
-				case ssa.CallInstruction:
-					// address escapes to a call (binary.Read(&v)): unknown, adversarial in decoders
+				case ssa.CallInstruction, *ssa.MakeInterface, *ssa.ChangeType, *ssa.Convert, *ssa.Phi, *ssa.MakeClosure:
+					// address escapes to a call — directly, or boxed in an interface as in
+					// binary.Read(r, order, &v) — or into something that is not followed: unknown,
+					// adversarial in decoders
 					t := e.top(u.Type())
 					t.Taint = e.cfg.ByteLoadsTainted
 					t.Exact = t.Taint
